@@ -128,9 +128,6 @@ func cmdCheck(args []string) int {
 		run.Extra["assumptions"] = s.Assumptions
 		run.Extra["not_decided"] = s.NotDecided
 		s.Run(run)
-		if os.Getenv("LNDLINT_SURVEY_LOOPS") != "" {
-			spec.SurveyLoops(run, s.ID)
-		}
 		if *tier == "thorough" {
 			spec.Thorough(run, s, *repo, loadFor)
 		}
